@@ -78,6 +78,8 @@ def gen(rng, n):
                     s['steps'][0]['plan'] = {'faults': {'open': {'errno': rng.choice([28, 30, 13, 122]), 'path': '/info/' + nm}}}
         av = s['steps'][0]['argv']
         s['steps'][0]['argv'] = av[:av.index('--') + 1] + [a['arg'] for a in args]
+        if m['mode'] == 'interactive' and rng.random() < 0.25:
+            s['steps'][0]['interrupt_input'] = rng.randint(1, 3)        # the user types ^C at that prompt
         m['blocked'] = blocked
         scns.append(s)
         metas.append(m)
@@ -140,6 +142,14 @@ def judge(run, scn, meta, res, alone, section='state'):
             ri += 1
         if ok is False:
             failed.append(a)
+    if any(t[0] == 'input' and t[2] and t[2][0] == 'err' and t[2][1] == 'KeyboardInterrupt' for t in o['trace']):
+        # ^C at a prompt: the argument asked about and all later ones were neither trashed nor declined - whatever is printed, the exit
+        # status must not say "all done"
+        if o['exit'] == 0:
+            run.fail('oracle', 'trash-put was interrupted at a prompt with arguments still pending, and exited with status 0', case,
+                     key='interrupted-but-exit-0', section=section)
+        run.nontriv(('interrupted', st.get('interrupt_input'), o['exit'] == 0))
+        return
     if o['exc'] is not None:
         run.fail('oracle', 'trash-put ended with an uncaught exception: the remaining arguments were not handled',
                  case, key='uncaught-exception', section=section)
